@@ -814,16 +814,36 @@ func (it *Interp) assumeTerm(p *Term, v bool) {
 		it.assumeAtom(a, !v)
 		return
 	}
-	// a conjunction that is true / a disjunction that is false fixes every atom
-	if v {
-		if len(p.mons) == 1 {
-			for _, m := range p.mons {
-				if m.atom == nil && m.c.Cmp(bigOne) == 0 {
-					for _, a := range m.preds {
-						it.assumeAtom(a, true)
-					}
-				}
+	// compound condition: every atom that has the same value in all assignments consistent with p = v is fixed
+	atoms := p.PredAtoms()
+	if !p.IsPred() || len(atoms) == 0 || len(atoms) > 8 {
+		return
+	}
+	var always [2][]bool // always[0][i]: atom i can be false; always[1][i]: can be true
+	always[0] = make([]bool, len(atoms))
+	always[1] = make([]bool, len(atoms))
+	for mask := 0; mask < 1<<len(atoms); mask++ {
+		as := map[*PAtom]bool{}
+		for i, a := range atoms {
+			as[a] = mask>>i&1 == 1
+		}
+		if (p.evalPure(as).Sign() != 0) != v {
+			continue
+		}
+		for i := range atoms {
+			if mask>>i&1 == 1 {
+				always[1][i] = true
+			} else {
+				always[0][i] = true
 			}
+		}
+	}
+	for i, a := range atoms {
+		if always[1][i] && !always[0][i] {
+			it.assumeAtom(a, true)
+		}
+		if always[0][i] && !always[1][i] {
+			it.assumeAtom(a, false)
 		}
 	}
 }
@@ -1087,3 +1107,41 @@ func (it *Interp) InputRoots() []*Cell {
 // AsTerm exposes asTerm; Show exposes show.
 func AsTerm(v Value) (*Term, bool) { return asTerm(v) }
 func Show(v Value) string          { return show(v) }
+
+// ApplyPoly substitutes the path's assumptions for the predicate variables of p.
+func (it *Interp) ApplyPoly(p *Poly) *Poly {
+	for _, a := range p.PredAtoms() {
+		if v, ok := it.assume[a]; ok {
+			p = p.SubstPred(a, v)
+		}
+	}
+	return p
+}
+
+
+// DeepApplyTerm substitutes the path's assumed predicate atoms everywhere in t, also inside atom arguments.
+func (it *Interp) DeepApplyTerm(t *Term) *Term {
+	for a, v := range it.assume {
+		t = NewSubst(a, v).Term(t)
+		// an assumed equality x = c of a free field symbol binds the symbol
+		if v && a.Kind == PISZ {
+			if fv, c := linearVarEq(a.V); fv != nil {
+				t = NewVarSubst(fv, c).Term(t)
+			}
+		}
+	}
+	return it.ApplyTerm(t)
+}
+
+// DeepApplyPoly is DeepApplyTerm for polynomials.
+func (it *Interp) DeepApplyPoly(p *Poly) *Poly {
+	for a, v := range it.assume {
+		p = NewSubst(a, v).Poly(p)
+		if v && a.Kind == PISZ {
+			if fv, c := linearVarEq(a.V); fv != nil {
+				p = NewVarSubst(fv, c).Poly(p)
+			}
+		}
+	}
+	return p
+}
